@@ -12,6 +12,9 @@ import (
 // sample of jobs is run in many fresh processes, spread over all workers, and the traces
 // (outputs, peer orders, cumulative map-randomness draw counts) must be byte-identical.
 // It also checks that the seam is live: different seeds must give different peer orders.
+// selftestDivergence: a self-test job whose output (and only its output) differed between identical executions.
+var selftestDivergence *Run
+
 func selftest(seed uint64, prop, tier string) bool {
 	nJobs, repeats := 6, 30
 	if tier == "thorough" {
@@ -45,9 +48,10 @@ func selftest(seed uint64, prop, tier string) bool {
 		}
 	}
 	type out struct {
-		s     string
-		infra string
-		extra string
+		s      string
+		infra  string
+		extra  string
+		masked string
 	}
 	outs := make([]out, len(runs)*repeats)
 	parallel(len(outs), workers, func(k int) {
@@ -69,6 +73,16 @@ func selftest(seed uint64, prop, tier string) bool {
 		t.Goroutines, t.Stacks = 0, ""
 		b, _ := json.Marshal(&t)
 		outs[k].s = string(b)
+		// the same trace without what the commands printed: everything the simulator itself controls
+		// (draw counts, peer order, relations, errors). If only the printed bytes differ between two
+		// identical executions, that is the code under test being nondeterministic (C08), not the simulator.
+		m := t
+		m.Events = append([]job.Event{}, t.Events...)
+		for i := range m.Events {
+			m.Events[i].Out, m.Events[i].OutSha = "", ""
+		}
+		mb, _ := json.Marshal(&m)
+		outs[k].masked = string(mb)
 	})
 	for k := range outs {
 		if outs[k].extra != "" {
@@ -79,6 +93,14 @@ func selftest(seed uint64, prop, tier string) bool {
 			return false
 		}
 		if outs[k].s != outs[(k/repeats)*repeats].s {
+			if outs[k].masked == outs[(k/repeats)*repeats].masked {
+				if selftestDivergence == nil {
+					r := runs[k/repeats]
+					selftestDivergence = &r
+					fmt.Printf("note: self-test job %d (%s): two identical executions (same files, same seeded schedule) printed different output; everything the simulator controls is identical. That is C08's to report.\n", k/repeats, r.Job.ID)
+				}
+				continue
+			}
 			fmt.Printf("INFRA: determinism self-test failed: job %d (%s) repeat %d differs from repeat 0\n", k/repeats, runs[k/repeats].Job.ID, k%repeats)
 			return false
 		}
